@@ -175,6 +175,42 @@ Proof.
   apply async_perform_no_panic.
 Qed.
 
+(* ------------------------------------------------------------------ what the known class is, exactly *)
+(* the capacity, the transport and the filesystem's answer are not part of it *)
+Lemma known_class_only_request cfg k cap req fr k' cap' fr' :
+  known_class cfg k cap req fr = known_class cfg k' cap' req fr'.
+Proof. reflexivity. Qed.
+
+Lemma find_ahandler_write sh : find_ahandler 16 (async_handlers sh) = Some (ah_write sh).
+Proof. reflexivity. Qed.
+Lemma find_handler_write : find_handler 16 handlers = Some (h_write 16).
+Proof. reflexivity. Qed.
+
+(* and it is no wider than the defect: on EVERY member the async handler stops after the id remap while the sync handler
+   goes on to call write -- whatever the capacity, transport, buffer content and answer *)
+Lemma known_class_differs cfg k cap buf0 req fr :
+  known_class cfg k cap req fr = true ->
+  List.length (fst (fst (async_handle cfg k cap buf0 req fr))) = 1%nat /\
+  List.length (fst (fst (handle cfg k cap req fr))) = 2%nat.
+Proof.
+  unfold known_class. intro H.
+  destruct (read_obj 40 req) as [[hb r]|] eqn:E; [|discriminate H].
+  destruct (cfg_remap cfg) as [du dg|] eqn:R; [|discriminate H].
+  apply andb_true_iff in H. destruct H as [H Hb].
+  apply andb_true_iff in H. destruct H as [Hov Hop].
+  apply negb_true_iff in Hov. unfold oversize in Hov. apply N.eqb_eq in Hop.
+  unfold big_write in Hb.
+  destruct (read_obj 40 r) as [[s r']|] eqn:E2; [|discriminate Hb].
+  unfold async_handle, async_handle_gen, handle, async_decide, decide.
+  rewrite E, R, Hov.
+  change (sh_gate_capacity code_shape) with false. cbn [andb].
+  rewrite Hop. change (16 =? 26) with false. cbv iota.
+  unfold async_handler, handler. rewrite Hop, find_ahandler_write, find_handler_write.
+  unfold ah_write, h_write, awith_obj, with_obj. rewrite E2.
+  change (sh_write_gate code_shape) with true. cbn [andb]. rewrite Hb.
+  split; reflexivity.
+Qed.
+
 (* ------------------------------------------------------------------ witnesses (each replayed on the code) *)
 Definition cfg0 : config := {| cfg_minor := 33; cfg_remap := RemapOk 0 0; cfg_vu_req := false; cfg_fsopt_mask := 0 |}.
 Definition hdr_bytes (len op unique nodeid : N) : bytes :=
